@@ -10,8 +10,8 @@ from vlib.core import AnalysisError, Repo, Report, norm, own_nodes
 EXPLANATION = (
     "Rules over rdflib/plugins/stores/sparqlstore.py and sparqlconnector.py: (a) every read of SPARQLUpdateStore "
     "that reaches the connector's query is an override that flushes pending edits first unless dirty reads are "
-    "allowed; (b) every write enqueues unconditionally through _transaction() and commits under autocommit, "
-    "_update is called only from commit, commit sends the queue in list order and clears it, rollback only clears; "
+    "allowed; (b) every write enqueues unconditionally on the live queue and commits exactly when autocommit is on, "
+    "the connector's update() is reached only from commit, commit sends the queue in list order and clears it, rollback only clears; "
     "(c) pattern wildcards are tested by identity (a falsy literal is a bound term); (d) per-request argument "
     "dicts are deep copies of the connector's shared kwargs before nested entries are mutated. Whether the "
     "generated SPARQL text means the intended pattern at a real endpoint is not decided (needs an evaluator)."
@@ -23,33 +23,83 @@ def _self_calls(fn: ast.AST) -> list[ast.Call]:
             and isinstance(n.func.value, ast.Name) and n.func.value.id == "self"]
 
 
-def _conjuncts(test: ast.expr) -> set[str] | None:
-    """conjuncts of a flush condition, normalised: {'not self.autocommit', 'not self.dirty_reads'}"""
-    if isinstance(test, ast.BoolOp) and isinstance(test.op, ast.And):
-        out = set()
-        for v in test.values:
-            c = _conjuncts(v)
-            if c is None:
-                return None
-            out |= c
+class _Cx:
+    """what every rule section needs: the two store modules, the two classes and who does what in them (roles, by the flow of
+    values from the public names - see vlib/h_c20.py StoreRoles)"""
+
+    def __init__(self, repo: Repo, rep: Report):
+        from vlib import h_c20 as H
+
+        self.repo, self.rep, self.H = repo, rep, H
+        self.mod = repo.mod(_STORE_MODS[0])
+        self.con = repo.mod(_STORE_MODS[1])
+        self.roles = H.StoreRoles(repo, self.mod)
+        self.base = self.roles.base
+        self.upd = self.roles.upd
+        self.both = [("SPARQLStore", self.base), ("SPARQLUpdateStore", self.upd)]
+
+    def all(self):
+        return self.repo, self.rep, self.H, self.mod, self.con, self.base, self.upd, self.both, self.roles
+
+
+class _Flush:
+    """Where a method of SPARQLUpdateStore sends the queue, under an assumption on the store's switches (`env`: truth of
+    `self.autocommit`, `self.dirty_reads`, `<queue attribute>` = edits are pending): a statement FLUSHES when it calls
+    self.commit(), or a method of the store that - under the same assumption - cannot return normally without having done so
+    (whatever it is called and however its test is written: guard clause, negated disjunction, nested ifs)."""
+
+    def __init__(self, cx: _Cx, env: dict):
+        self.cx, self.env = cx, env
+        self._always: dict[int, bool] = {}
+        self._may: dict[int, bool] = {}
+
+    def env_for(self, fn: ast.AST) -> dict:
+        # an assumption about an attribute does not outlive an assignment to it
+        stored = {norm(n) for n in own_nodes(fn, include_nested=True) if isinstance(n, ast.Attribute) and isinstance(n.ctx, (ast.Store, ast.Del))}
+        return {k: v for k, v in self.env.items() if k not in stored}
+
+    def _self_call(self, c: ast.Call) -> str | None:
+        f = c.func
+        return f.attr if isinstance(f, ast.Attribute) and isinstance(f.value, ast.Name) and f.value.id == "self" else None
+
+    def nodes(self, fn: ast.AST, g: CFG, must: bool, busy: frozenset = frozenset()) -> set[int]:
+        H = self.cx.H
+        out: set[int] = set()
+        for nd in g.nodes:
+            if nd.ast is None or nd.kind in ("entry", "exit", "raise", "handler", "def"):
+                continue
+            calls = list(H.unconditional_calls(nd.ast)) if must else [c for h in H.head_exprs(nd.ast) for c in ast.walk(h) if isinstance(c, ast.Call)]
+            for c in calls:
+                nm = self._self_call(c)
+                if nm is None:
+                    continue
+                if nm == "commit":
+                    out.add(nd.id)
+                    continue
+                r = self.cx.roles.scope_upd.resolve(nm)
+                if r is not None and id(r[1]) not in busy and (self.always(r[1], busy) if must else self.may(r[1], busy)):
+                    out.add(nd.id)
         return out
-    if isinstance(test, ast.UnaryOp) and isinstance(test.op, ast.Not):
-        inner = test.operand
-        if isinstance(inner, ast.BoolOp) and isinstance(inner.op, ast.Or):
-            out = set()
-            for v in inner.values:
-                out.add("not " + norm(v))
-            return out
-        return {"not " + norm(inner)}
-    return None
+
+    def always(self, fn: ast.AST, busy: frozenset = frozenset()) -> bool:
+        """under the assumption, fn cannot return normally without having flushed"""
+        if id(fn) not in self._always:
+            g = CFG(fn)
+            fl = self.nodes(fn, g, True, busy | {id(fn)})
+            self._always[id(fn)] = g.exit not in self.cx.H.feasible_reach(g, g.entry, fl, self.env_for(fn))
+        return self._always[id(fn)]
+
+    def may(self, fn: ast.AST, busy: frozenset = frozenset()) -> bool:
+        """under the assumption, some feasible path through fn flushes"""
+        if id(fn) not in self._may:
+            g = CFG(fn)
+            fl = self.nodes(fn, g, False, busy | {id(fn)})
+            self._may[id(fn)] = bool(fl & ({g.entry} | self.cx.H.feasible_reach(g, g.entry, (), self.env_for(fn))))
+        return self._may[id(fn)]
 
 
-def run(repo: Repo, rep: Report) -> None:
-    rep.extra["explanation"] = EXPLANATION
-    mod = repo.mod("rdflib.plugins.stores.sparqlstore")
-    con = repo.mod("rdflib.plugins.stores.sparqlconnector")
-    base = mod.methods("SPARQLStore")
-    upd = mod.methods("SPARQLUpdateStore")
+def _rule_a(cx: _Cx) -> None:
+    repo, rep, H, mod, con, base, upd, both, roles = cx.all()
     for m in base:
         rep.analysed("rdflib/plugins/stores/sparqlstore.py:SPARQLStore." + m)
     for m in upd:
@@ -57,12 +107,23 @@ def run(repo: Repo, rep: Report) -> None:
 
     # ------------------------------------------------------------------ (a)
     rep.rule("C20.a-flush-before-read",
-             "every SPARQLStore method that sends a query to the endpoint (calls self._query) is overridden in "
-             "SPARQLUpdateStore by a method whose delegation to the base implementation is dominated by "
-             "`if not self.autocommit and not self.dirty_reads: self.commit()` (or a stronger flush)", floor=4)
-    direct = {m for m, f in base.items() if any(c.func.attr == "_query" for c in _self_calls(f)) and m != "_query"}
+             "every SPARQLStore method that sends a query to the endpoint (reaches the connector's query(), itself or through a private "
+             "method) is overridden in SPARQLUpdateStore by a method in which, with autocommit and dirty_reads both off and edits pending, "
+             "every path to the delegation to the base implementation has called self.commit() - in the method or in a method of the store "
+             "it calls that cannot return without having done so - and in which, with autocommit off and dirty reads allowed, no path calls it "
+             "(`if not self.autocommit and not self.dirty_reads: self.commit()`, or any equivalent spelling of that test)", floor=4)
+    readers = roles.carriers("query")
+    direct = {m for m, f in base.items() if m not in readers and roles.sites(f, "SPARQLStore", "query")}
     if len(direct) < 4:
-        raise AnalysisError("expected >= 4 SPARQLStore methods calling self._query, found %s" % sorted(direct))
+        raise AnalysisError("expected >= 4 SPARQLStore methods that reach the connector's query(), found %s" % sorted(direct))
+    env = {"self.autocommit": False, "self.dirty_reads": False}
+    try:
+        env[roles.qattr] = True  # edits are pending (nothing has to be flushed otherwise)
+    except AnalysisError:
+        pass
+    flush = _Flush(cx, env)
+    # ... and with dirty reads allowed (autocommit off) a read sends nothing: what is pending stays for commit() / rollback()
+    dirty = _Flush(cx, {"self.autocommit": False, "self.dirty_reads": True})
     for m in sorted(direct):
         f = upd.get(m)
         if f is None:
@@ -74,28 +135,24 @@ def run(repo: Repo, rep: Report) -> None:
         deleg = [n for n in own_nodes(f) if isinstance(n, ast.Call) and (
             norm(n.func) == "SPARQLStore." + m or norm(n.func) == "super().%s" % m or norm(n.func) == "super(SPARQLUpdateStore, self).%s" % m)]
         if not deleg:
-            # the override may implement the read itself through self._query
-            deleg = [c for c in _self_calls(f) if c.func.attr == "_query"]
+            # the override may implement the read itself
+            deleg = roles.sites(f, "SPARQLUpdateStore", "query")
         if not deleg:
             rep.ob("C20.a-flush-before-read", mod, "SPARQLUpdateStore." + m, "delegation to SPARQLStore.%s" % m, False,
                    "override neither delegates to the base read nor queries", node=f)
             continue
-        flush_nodes = set()
-        for n in own_nodes(f):
-            if isinstance(n, ast.If):
-                cj = _conjuncts(n.test)
-                commits = any(isinstance(c, ast.Call) and norm(c.func) == "self.commit" for s in n.body for c in ast.walk(s))
-                if cj is not None and commits and cj <= {"not self.autocommit", "not self.dirty_reads"}:
-                    flush_nodes.add(g.by_ast[id(n)])
-            if isinstance(n, ast.Expr) and isinstance(n.value, ast.Call) and norm(n.value.func) == "self.commit":
-                par = mod.parent.get(id(n))
-                if par is f:
-                    flush_nodes.add(g.by_ast[id(n)])
+        fl = flush.nodes(f, g, True, frozenset({id(f)}))
+        unflushed = {g.entry} | H.feasible_reach(g, g.entry, fl, flush.env_for(f))
+        early = dirty.nodes(f, g, False, frozenset({id(f)})) & ({g.entry} | H.feasible_reach(g, g.entry, (), dirty.env_for(f)))
         for d in deleg:
-            ok = bool(flush_nodes) and g.must_pass_before(g.node_of(d, mod), flush_nodes)
+            dn = g.node_of(d, mod)
+            flushed = bool(fl) and dn not in unflushed and dn not in fl
+            ok = flushed and not early
             rep.ob("C20.a-flush-before-read", mod, "SPARQLUpdateStore." + m, d, ok,
-                   "read is dominated by the flush guard" if ok else
-                   "the read reaches the endpoint on a path that does not pass `if not self.autocommit and not self.dirty_reads: self.commit()`", node=d)
+                   "with autocommit and dirty reads off, every path to the read has flushed the pending edits; with dirty reads on, none does" if ok else
+                   ("the read reaches the endpoint on a path that does not pass `if not self.autocommit and not self.dirty_reads: self.commit()`" if not flushed else
+                    "with autocommit off and dirty reads allowed the read still sends the pending edits (%s): they are at the endpoint before commit() "
+                    "and rollback() cannot discard them" % norm(g.nodes[sorted(early)[0]].ast)[:60]), node=d)
     # derived reads must go through self.<direct read> (dynamic dispatch to the flushing override)
     for m, f in list(base.items()) + list(upd.items()):
         if m in direct or m.startswith("_") or m in ("query",):
@@ -105,30 +162,29 @@ def run(repo: Repo, rep: Report) -> None:
                 rep.ob("C20.a-flush-before-read", mod, m, c, False,
                        "calls the base read directly, bypassing the flushing override", node=c)
 
+
+def _rule_b(cx: _Cx) -> None:
+    repo, rep, H, mod, con, base, upd, both, roles = cx.all()
     # ------------------------------------------------------------------ (b)
     rep.rule("C20.b-enqueue-discipline",
-             "every write method of SPARQLUpdateStore appends/extends the queue obtained from self._transaction() on "
-             "every normal path (never conditionally on the queue's content) and then commits under "
-             "`if self.autocommit:`; self._update is called only from commit; commit sends the queue joined in list "
-             "order and clears it afterwards; rollback only clears the queue", floor=10)
-    writers = [m for m, f in upd.items() if any(norm(c.func) == "self._transaction" for c in ast.walk(f) if isinstance(c, ast.Call)) and m != "_transaction"]
+             "every write method of SPARQLUpdateStore appends/extends the live queue (the attribute commit() sends, or the result of the "
+             "private method that returns it) on every normal path (never conditionally on the queue's content); after that, with autocommit on "
+             "every path commits and with autocommit off none does; the connector's update() is reached only from commit; commit sends the "
+             "queue joined in list order and clears it afterwards; rollback only clears the queue", floor=10)
+    qattr = roles.qattr
+    accessors = roles.accessors()
+    special = set(accessors) | {"commit", "rollback", "__init__"}
+    writers = [m for m, f in upd.items() if m not in special and (
+        roles.enqueues(f) or any(c.func.attr in accessors for c in H.self_calls(f)))]
     if len(writers) < 4:
-        raise AnalysisError("expected >= 4 writer methods using self._transaction(), found %s" % writers)
+        raise AnalysisError("expected >= 4 writer methods that add to the queue of pending updates, found %s" % writers)
+    on, off = _Flush(cx, {"self.autocommit": True}), _Flush(cx, {"self.autocommit": False})
     for m in writers:
         f = upd[m]
         g = CFG(f)
-        enq = []
-        qalias = {nm.id for n in own_nodes(f) if isinstance(n, ast.Assign) and isinstance(n.value, ast.Call)
-                  and norm(n.value.func) == "self._transaction" for nm in n.targets if isinstance(nm, ast.Name)}
-        for n in own_nodes(f):
-            if isinstance(n, ast.Call) and isinstance(n.func, ast.Attribute) and n.func.attr in ("append", "extend") and (
-                    (isinstance(n.func.value, ast.Call) and norm(n.func.value.func) == "self._transaction")
-                    or (isinstance(n.func.value, ast.Name) and n.func.value.id in qalias)):
-                enq.append(n)
-            if isinstance(n, ast.AugAssign) and isinstance(n.op, ast.Add) and isinstance(n.target, ast.Name) and n.target.id in qalias:
-                enq.append(n)
+        enq = roles.enqueues(f)
         if not enq:
-            rep.ob("C20.b-enqueue-discipline", mod, "SPARQLUpdateStore." + m, "self._transaction().append(...)", False,
+            rep.ob("C20.b-enqueue-discipline", mod, "SPARQLUpdateStore." + m, "<queue>.append(...)", False,
                    "writer does not enqueue through append/extend", node=f)
             continue
         enodes = {g.node_of(e, mod) for e in enq}
@@ -137,52 +193,56 @@ def run(repo: Repo, rep: Report) -> None:
                "every normal path through %s enqueues its edit" % m if allpaths else
                "a normal path through %s returns without enqueuing (the edit is dropped, e.g. de-duplicated against the queue): writes no longer reach the endpoint in order" % m,
                node=enq[0])
-        commits = set()
-        for n in own_nodes(f):
-            if isinstance(n, ast.If) and norm(n.test) == "self.autocommit" and any(
-                    isinstance(c, ast.Call) and norm(c.func) == "self.commit" for s in n.body for c in ast.walk(s)):
-                commits.add(g.by_ast[id(n)])
-        ok = bool(commits) and all(g.must_pass_after(e, commits) for e in enodes)
+        must = on.nodes(f, g, True, frozenset({id(f)}))
+        committed = bool(must) and all(g.exit not in H.feasible_reach(g, e, must, on.env_for(f)) for e in enodes)
+        early = off.nodes(f, g, False, frozenset({id(f)}))
+        kept = not any(early & H.feasible_reach(g, e, (), off.env_for(f)) for e in enodes)
+        ok = committed and kept
         rep.ob("C20.b-enqueue-discipline", mod, "SPARQLUpdateStore." + m, "if self.autocommit: self.commit() after the enqueue", ok,
-               "autocommit flush follows the enqueue on every path" if ok else "with autocommit on, %s can return without committing its edit" % m, node=f)
+               "with autocommit on the flush follows the enqueue on every path, with autocommit off on none" if ok else
+               ("with autocommit on, %s can return without committing its edit" % m if not committed else
+                "with autocommit off, %s sends the queue itself: the edit reaches the endpoint before commit() and rollback() cannot discard it" % m), node=f)
     # add_graph / remove_graph go through self.update
     for m in ("add_graph", "remove_graph"):
         f = upd.get(m)
         if f is None:
             raise AnalysisError("SPARQLUpdateStore.%s vanished" % m)
-        bad = [c for c in _self_calls(f) if c.func.attr in ("_update", "_query")]
+        bad = roles.sites(f, "SPARQLUpdateStore", "update") + roles.sites(f, "SPARQLUpdateStore", "query")
         rep.ob("C20.b-enqueue-discipline", mod, "SPARQLUpdateStore." + m, "graph management goes through self.update", not bad,
                "uses the queued update path" if not bad else "%s talks to the endpoint directly (%s), overtaking queued edits" % (m, norm(bad[0])), node=f)
-    # _update only from commit
+    # the connector's update() is reached only from commit (private methods that carry the text there are judged where they are called)
+    senders = roles.carriers("update")
     for m, f in upd.items():
-        for c in _self_calls(f):
-            if c.func.attr == "_update":
-                rep.ob("C20.b-enqueue-discipline", mod, "SPARQLUpdateStore." + m, c, m == "commit",
-                       "commit is the only sender" if m == "commit" else "%s sends an update directly, overtaking queued edits" % m, node=c)
+        for c in roles.sites(f, "SPARQLUpdateStore", "update"):
+            ok = m == "commit" or m in senders
+            rep.ob("C20.b-enqueue-discipline", mod, "SPARQLUpdateStore." + m, c, ok,
+                   ("commit is the only sender" if m == "commit" else "carries the text of its caller to the connector") if ok else
+                   "%s sends an update directly, overtaking queued edits" % m, node=c)
     cm = upd.get("commit")
     rb = upd.get("rollback")
     if cm is None or rb is None:
         raise AnalysisError("commit/rollback vanished")
-    sends = [c for c in _self_calls(cm) if c.func.attr == "_update"]
+    sends = roles.sites(cm, "SPARQLUpdateStore", "update")
     if not sends:
-        rep.ob("C20.b-enqueue-discipline", mod, "SPARQLUpdateStore.commit", "self._update(...)", False, "commit sends nothing", node=cm)
+        rep.ob("C20.b-enqueue-discipline", mod, "SPARQLUpdateStore.commit", "<send>(...)", False, "commit sends nothing", node=cm)
     for s in sends:
-        arg = s.args[0] if s.args else None
+        arg = roles.sent_text(s)
+        arg = H.resolve_local(arg, cm) if arg is not None else None
         # the queue itself, or a local name that holds it (taken before the queue attribute is re-bound)
-        aliases = {norm(a.targets[0]) for a in own_nodes(cm) if isinstance(a, ast.Assign) and isinstance(a.targets[0], ast.Name) and norm(a.value) == "self._edits"}
+        aliases = {norm(a.targets[0]) for a in own_nodes(cm) if isinstance(a, ast.Assign) and isinstance(a.targets[0], ast.Name) and norm(a.value) == qattr}
         for a in own_nodes(cm):
-            if isinstance(a, ast.Assign) and isinstance(a.targets[0], ast.Name) and norm(a.targets[0]) in aliases and norm(a.value) != "self._edits":
+            if isinstance(a, ast.Assign) and isinstance(a.targets[0], ast.Name) and norm(a.targets[0]) in aliases and norm(a.value) != qattr:
                 aliases.discard(norm(a.targets[0]))  # re-bound to something else
         ok = isinstance(arg, ast.Call) and isinstance(arg.func, ast.Attribute) and arg.func.attr == "join" and len(arg.args) == 1 \
-            and (norm(arg.args[0]) == "self._edits" or norm(arg.args[0]) in aliases)
+            and (norm(arg.args[0]) == qattr or norm(arg.args[0]) in aliases)
         via_alias = ok and norm(arg.args[0]) in aliases
         rep.ob("C20.b-enqueue-discipline", mod, "SPARQLUpdateStore.commit", s, ok,
-               "sends all queued edits joined in queue order" if ok else "commit does not send `<sep>.join(self._edits)` (order/multiplicity of queued edits may change): %s" % norm(arg)[:80], node=s)
+               "sends all queued edits joined in queue order" if ok else "commit does not send `<sep>.join(%s)` (order/multiplicity of queued edits may change): %s" % (qattr, norm(arg)[:80]), node=s)
         g = CFG(cm)
         clears = set()
         for nd in g.nodes:
             st = nd.ast
-            if nd.kind == "stmt" and isinstance(st, ast.Assign) and any(norm(t) == "self._edits" for t in st.targets) \
+            if nd.kind == "stmt" and isinstance(st, ast.Assign) and any(norm(t) == qattr for t in st.targets) \
                     and (isinstance(st.value, ast.Constant) and st.value.value is None or isinstance(st.value, ast.List) and not st.value.elts):
                 clears.add(nd.id)
         sn = g.node_of(s, mod)
@@ -195,19 +255,23 @@ def run(repo: Repo, rep: Report) -> None:
         rep.ob("C20.b-enqueue-discipline", mod, "SPARQLUpdateStore.commit", "queue cleared after sending", ok,
                "cleared after the send" if ok else "queue is not cleared on every path after sending (edits would be re-sent) or is cleared before", node=cm)
     rb_calls = [c for c in _self_calls(rb)]
-    rb_clears = [n for n in own_nodes(rb) if isinstance(n, ast.Assign) and any(norm(t) == "self._edits" for t in n.targets)]
-    ok = not [c for c in rb_calls if c.func.attr in ("_update", "commit", "update")] and bool(rb_clears)
+    rb_sends = roles.sites(rb, "SPARQLUpdateStore", "update")
+    rb_clears = [n for n in own_nodes(rb) if isinstance(n, ast.Assign) and any(norm(t) == qattr for t in n.targets)]
+    ok = not rb_sends and not [c for c in rb_calls if c.func.attr in ("commit", "update")] and bool(rb_clears)
     rep.ob("C20.b-enqueue-discipline", mod, "SPARQLUpdateStore.rollback", "rollback only clears the queue", ok,
            "discards exactly the uncommitted edits" if ok else "rollback sends or fails to clear", node=rb)
-    # _transaction returns the live queue object
-    tr = upd.get("_transaction")
-    if tr is None:
-        raise AnalysisError("_transaction vanished")
-    rets = [n for n in own_nodes(tr) if isinstance(n, ast.Return)]
-    ok = bool(rets) and all(r.value is not None and norm(r.value) == "self._edits" for r in rets)
-    rep.ob("C20.b-enqueue-discipline", mod, "SPARQLUpdateStore._transaction", "returns the live queue self._edits", ok,
-           "" if ok else "_transaction returns %s (a copy would lose appended edits)" % [norm(r.value) for r in rets if r.value is not None], node=tr)
+    # the method the writers get the queue from returns the live queue object
+    if not accessors and not any(norm(n) == qattr for m in writers for n in own_nodes(upd[m]) if isinstance(n, ast.Attribute)):
+        raise AnalysisError("the writers of SPARQLUpdateStore neither append to the result of a private method nor to the queue attribute %s" % qattr)
+    for nm, tr in sorted(accessors.items()):
+        rets = [n for n in own_nodes(tr) if isinstance(n, ast.Return)]
+        ok = bool(rets) and all(r.value is not None and norm(r.value) == qattr for r in rets)
+        rep.ob("C20.b-enqueue-discipline", mod, "SPARQLUpdateStore." + nm, "returns the live queue %s" % qattr, ok,
+               "" if ok else "%s returns %s (a copy would lose appended edits)" % (nm, [norm(r.value) for r in rets if r.value is not None]), node=tr)
 
+
+def _rule_c(cx: _Cx) -> None:
+    repo, rep, H, mod, con, base, upd, both, roles = cx.all()
     # ------------------------------------------------------------------ (c)
     rep.rule("C20.c-wildcards-by-identity",
              "in SPARQLStore/SPARQLUpdateStore a pattern position is replaced by a variable only when it `is None`; "
@@ -216,6 +280,9 @@ def run(repo: Repo, rep: Report) -> None:
         for m, f in ms.items():
             truthy.scan(repo, rep, "C20.c-wildcards-by-identity", mod, f, "%s.%s" % (cls, m), require_optional=False)
 
+
+def _rule_d(cx: _Cx) -> None:
+    repo, rep, H, mod, con, base, upd, both, roles = cx.all()
     # ------------------------------------------------------------------ (d)
     rep.rule("C20.d-request-args-isolated",
              "in SPARQLConnector.query/update the per-request argument dict whose nested entries are mutated is a "
@@ -260,6 +327,9 @@ def run(repo: Repo, rep: Report) -> None:
                    "%s copy of the shared kwargs; %d nested mutation(s)" % (kind, len(nested)) if ok else
                    "%s is a %s of self.kwargs and its nested dict is mutated (%s): the change persists into later requests" % (nm, kind, norm(nested[0])[:60]), node=st)
 
+
+def _rule_e(cx: _Cx) -> None:
+    repo, rep, H, mod, con, base, upd, both, roles = cx.all()
     # ------------------------------------------------------------------ (e)
     rep.rule("C20.e-no-stale-loop-variable",
              "inside a loop of a SPARQLStore/SPARQLUpdateStore method, no name is read that is bound only as the target of an earlier, already "
@@ -300,6 +370,9 @@ def run(repo: Repo, rep: Report) -> None:
                 rep.ob("C20.e-no-stale-loop-variable", mod, "%s.%s" % (cls, m), "for %s in %s" % (norm(l2.target), norm(l2.iter)[:40]), not stale,
                        "uses its own loop variables" if not stale else "the loop reads %s, which is only bound by an earlier loop that has finished: every iteration sees that loop's last element" % sorted(stale), node=l2)
 
+
+def _rule_f(cx: _Cx) -> None:
+    repo, rep, H, mod, con, base, upd, both, roles = cx.all()
     # ------------------------------------------------------------------ (f) result decoding (anchored: results/jsonresults.py, xmlresults.py)
     from checks.c16 import json_memo_rule
 
@@ -310,7 +383,7 @@ def run(repo: Repo, rep: Report) -> None:
 # second layer: the text that is sent (update rewriting, graph designators, paging, request address), what a failed
 # autocommit write leaves behind, and the shape of what triples() yields
 # ======================================================================================================================
-_run_base = run
+from vlib.core import layer as _layer  # noqa: E402
 
 _STORE_MODS = ("rdflib.plugins.stores.sparqlstore", "rdflib.plugins.stores.sparqlconnector")
 
@@ -403,10 +476,11 @@ def _repl_kind(repo: Repo, m, fn: ast.AST, e: ast.AST | None, depth: int = 4) ->
     return "unknown"
 
 
-def _graph_polarity(test: ast.expr, x: str, dflt: set[str]) -> bool | None:
+def _graph_polarity(test: ast.expr, x: str, dflt: set[str], preds: frozenset = frozenset({"_is_contextual"})) -> bool | None:
     """True: the test being true implies that the graph designator x is a named graph (not the dataset's default graph);
-    False: the test being false implies it; None: the test decides nothing about x"""
-    if isinstance(test, ast.Call) and isinstance(test.func, ast.Attribute) and test.func.attr == "_is_contextual" and test.args and norm(test.args[0]) == x:
+    False: the test being false implies it; None: the test decides nothing about x.  `preds`: the names of the store's
+    default-graph predicate (see _default_graph_predicates)"""
+    if isinstance(test, ast.Call) and isinstance(test.func, ast.Attribute) and test.func.attr in preds and test.args and norm(test.args[0]) == x:
         return True
     if isinstance(test, ast.Compare) and len(test.ops) == 1:
         sides = [test.left, test.comparators[0]]
@@ -417,10 +491,10 @@ def _graph_polarity(test: ast.expr, x: str, dflt: set[str]) -> bool | None:
                 return False
         return None
     if isinstance(test, ast.UnaryOp) and isinstance(test.op, ast.Not):
-        p = _graph_polarity(test.operand, x, dflt)
+        p = _graph_polarity(test.operand, x, dflt, preds)
         return None if p is None else (not p)
     if isinstance(test, ast.BoolOp):
-        ps = [_graph_polarity(v, x, dflt) for v in test.values]
+        ps = [_graph_polarity(v, x, dflt, preds) for v in test.values]
         if isinstance(test.op, ast.And) and any(p is True for p in ps):
             return True
         if isinstance(test.op, ast.Or) and any(p is False for p in ps):
@@ -428,22 +502,62 @@ def _graph_polarity(test: ast.expr, x: str, dflt: set[str]) -> bool | None:
     return None
 
 
-def run(repo: Repo, rep: Report) -> None:  # noqa: F811
-    _run_base(repo, rep)
-    from vlib import h_c20 as H
+_EXPLANATION_2 = (
+    " Second layer: (g) run-time text never is the replacement TEMPLATE of a regex substitution; (h) no alternative of the update "
+    "tokeniser's ordered choice is shadowed by an earlier one; (i) a graph designator reaches the endpoint only under a test that it is "
+    "not the dataset's default graph, and (j) that predicate compares with the default-graph identifier in every representation; (k) "
+    "paging attributes are read only for the SELECT form; (l) under autocommit the queue is empty when the send can raise; (m) the "
+    "request address keeps an endpoint's own query string; (n) every Store.triples yields an iterable of contexts.")
 
-    rep.extra["explanation"] = EXPLANATION + (
-        " Second layer: (g) run-time text never is the replacement TEMPLATE of a regex substitution; (h) no alternative of the update "
-        "tokeniser's ordered choice is shadowed by an earlier one; (i) a graph designator reaches the endpoint only under a test that it is "
-        "not the dataset's default graph, and (j) that predicate compares with the default-graph identifier in every representation; (k) "
-        "paging attributes are read only for the SELECT form; (l) under autocommit the queue is empty when the send can raise; (m) the "
-        "request address keeps an endpoint's own query string; (n) every Store.triples yields an iterable of contexts.")
-    mod = repo.mod(_STORE_MODS[0])
-    con = repo.mod(_STORE_MODS[1])
-    base = mod.methods("SPARQLStore")
-    upd = mod.methods("SPARQLUpdateStore")
-    both = [("SPARQLStore", base), ("SPARQLUpdateStore", upd)]
 
+def _default_graph_names(cx: _Cx) -> set[str]:
+    dflt = cx.H.imported_as(cx.mod, "graph", "DATASET_DEFAULT_GRAPH_ID")
+    if not dflt:
+        raise AnalysisError("sparqlstore no longer imports DATASET_DEFAULT_GRAPH_ID")
+    return dflt
+
+
+def _default_graph_predicates(cx: _Cx) -> dict[str, ast.FunctionDef]:
+    """The store's predicate 'is this designator a named graph (GRAPH must be written)', by what it does: a private method
+    of SPARQLStore that takes the designator as its only argument, answers on every return, and refers to the dataset's
+    default-graph identifier (rule j decides whether it does so in every representation)"""
+    dflt = _default_graph_names(cx)
+    out = {}
+    for nm, f in cx.base.items():
+        rets = [r for r in own_nodes(f) if isinstance(r, ast.Return)]
+        if cx.H.is_private(nm) and len(cx.H.params_of(f)) == 2 and rets and all(r.value is not None for r in rets) \
+                and any(isinstance(x, ast.Name) and x.id in dflt for x in own_nodes(f)):
+            out[nm] = f
+    if not out:
+        raise AnalysisError("SPARQLStore has no private one-argument method that refers to DATASET_DEFAULT_GRAPH_ID any more (the default-graph predicate)")
+    return out
+
+
+def _graph_wrappers(cx: _Cx) -> dict[str, tuple[ast.FunctionDef, str]]:
+    """private methods of the store that render one of their parameters after the keyword GRAPH of a text they build (the
+    rewriting of an update for a named graph): name -> (function, that parameter)"""
+    import re
+
+    H, mod = cx.H, cx.mod
+    out: dict[str, tuple[ast.FunctionDef, str]] = {}
+    for scope in (cx.roles.scope_base, cx.roles.scope_upd):
+        for nm, f in scope.own.items():
+            if not H.is_private(nm):
+                continue
+            ps = H.params_of(f)[1:]
+            for _node, text, args in H.templates(mod, f):
+                sp = H.placeholders(text)
+                for k, (a, _b) in enumerate(sp):
+                    if not re.search(r"\bGRAPH\s*$", text[:a], re.I) or args is None or k >= len(args):
+                        continue
+                    for x in H.backward_slice(args[k], f, mod):
+                        if isinstance(x, ast.Name) and x.id in ps and not isinstance(mod.parent.get(id(x)), ast.Attribute):
+                            out[nm] = (f, x.id)
+    return out
+
+
+def _rule_g(cx: _Cx) -> None:
+    repo, rep, H, mod, con, base, upd, both, roles = cx.all()
     # ------------------------------------------------------------------ (g) data never becomes a replacement template
     rep.rule("C20.g-substituted-text-is-literal",
              "in the SPARQL store modules, the replacement argument of a regular-expression substitution (re.sub / pattern.sub / subn) that "
@@ -472,6 +586,9 @@ def run(repo: Repo, rep: Report) -> None:  # noqa: F811
                        "processed a second time, so a bound literal containing `\\` reaches the endpoint changed", node=call)
     rep.info["C20.g-package-wide-template-replacements (information, other properties' scope)"] = info
 
+
+def _rule_h(cx: _Cx) -> None:
+    repo, rep, H, mod, con, base, upd, both, roles = cx.all()
     # ------------------------------------------------------------------ (h) ordered alternations of the update tokeniser
     rep.rule("C20.h-no-shadowed-alternative",
              "in every regular expression the SPARQL store compiles, no alternative of the ordered choice at the end of the pattern is dead: an "
@@ -496,20 +613,55 @@ def run(repo: Repo, rep: Report) -> None:  # noqa: F811
     if n_pat < 3:
         raise AnalysisError("expected >= 3 compiled regular expressions in the SPARQL store modules, found %d" % n_pat)
 
+
+def _rule_i(cx: _Cx) -> None:
+    repo, rep, H, mod, con, base, upd, both, roles = cx.all()
+    dflt = _default_graph_names(cx)
     # ------------------------------------------------------------------ (i) the default graph is never addressed by name
-    dflt = H.imported_as(mod, "graph", "DATASET_DEFAULT_GRAPH_ID")
-    if not dflt:
-        raise AnalysisError("sparqlstore no longer imports DATASET_DEFAULT_GRAPH_ID")
     rep.rule("C20.i-default-graph-never-named",
              "in SPARQLStore/SPARQLUpdateStore every place where a graph designator reaches the endpoint - `<g>.identifier` rendered into the text "
-             "or passed on, the value of a `default_graph=` argument, the graph argument of _insert_named_graph - is control-dependent on a test "
-             "that excludes the dataset's default graph for that same designator (`self._is_contextual(<g>)` true, or `<g>.identifier` compared "
-             "with DATASET_DEFAULT_GRAPH_ID): otherwise ds.addN([(s, p, o, ds.default_context)]) writes into a NAMED graph <urn:x-rdflib:default> "
+             "or passed on, the value of a `default_graph=` argument, the argument of a private method that writes it after the keyword GRAPH (the "
+             "rewriting of an update for a named graph) - is control-dependent on a test that excludes the dataset's default graph for that same "
+             "designator (the store's default-graph predicate - its private one-argument method that refers to DATASET_DEFAULT_GRAPH_ID - true, or `<g>.identifier` compared "
+             "with DATASET_DEFAULT_GRAPH_ID), in the method itself or, for a parameter of a private helper, where the helper is called; counted "
+             "per entry point of the class and place, whichever private helper holds the place: otherwise ds.addN([(s, p, o, ds.default_context)]) writes into a NAMED graph <urn:x-rdflib:default> "
              "that no read of the default graph sees", floor=9)
-    for cls, ms in both:
-        for mname, f in ms.items():
-            if mname == "_is_contextual":
+    preds = frozenset(_default_graph_predicates(cx))
+    wrappers = _graph_wrappers(cx)
+
+    def guarded(node: ast.AST, x: str, f: ast.AST) -> bool:
+        for cond, kind in H.branch_of(mod, node, f):
+            if kind == "test":
                 continue
+            pol = _graph_polarity(cond.test, x, dflt, preds)  # type: ignore[attr-defined]
+            if (pol is True and kind == "body") or (pol is False and kind == "orelse"):
+                return True
+        return False
+
+    def guarded_by_caller(x: str, f: ast.AST, fns: list, depth: int = 4) -> bool:
+        """the designator is a parameter of a private helper, and EVERY call of the helper from the entry point or from the other
+        helpers it reaches (`fns`, the entry point first) stands under such a test on the name that is passed for it - in the
+        caller, or in turn where the caller is called"""
+        # (a parameter that is re-bound to something made of itself - `g = self.node_to_sparql(g)` - still stands for the argument)
+        if depth <= 0 or f is fns[0] or x not in H.params_of(f) or not all(
+                v is not None and any(isinstance(n, ast.Name) and n.id == x for n in ast.walk(v)) for _s, v in H.local_defs(f).get(x, [])):
+            return False
+        calls = [(g, c) for g in fns for c in H.self_calls(g) if c.func.attr == f.name]  # type: ignore[attr-defined]
+        if not calls:
+            return False
+        for g, c in calls:
+            a = H.argument_for(f, c, x)
+            if not isinstance(a, ast.Name) or not (guarded(c, a.id, g) or guarded_by_caller(a.id, g, fns, depth - 1)):
+                return False
+        return True
+
+    # one obligation per (entry point of the class, place) - the place may be in a private helper the entry point reaches
+    for cls, _ms in both:
+        scope = roles.scope_base if cls == roles.base_cls else roles.scope_upd
+        for entry, _owner, f, chain in scope.scopes():
+            if f.name in preds:
+                continue
+            fns = [scope.own[entry]] + [hf for _c, _n, hf, _ch in scope.reached_helpers(scope.own[entry])]
             sinks: list[tuple[ast.AST, str]] = []
             seen_ids: set[int] = set()
 
@@ -524,8 +676,10 @@ def run(repo: Repo, rep: Report) -> None:  # noqa: F811
                     add_sink(n, n.value.id)
                 if isinstance(n, ast.Call):
                     vals = [k.value for k in n.keywords if k.arg == "default_graph"]
-                    if isinstance(n.func, ast.Attribute) and n.func.attr == "_insert_named_graph":
-                        vals += n.args[1:2] + [k.value for k in n.keywords if k.arg == "query_graph"]
+                    if isinstance(n.func, ast.Attribute) and isinstance(n.func.value, ast.Name) and n.func.value.id == "self" and n.func.attr in wrappers:
+                        wf, wp = wrappers[n.func.attr]
+                        wa = H.argument_for(wf, n, wp)
+                        vals += [wa] if wa is not None else []
                     for v in vals:
                         for x in ast.walk(v):
                             if isinstance(x, ast.Name) and isinstance(x.ctx, ast.Load) and x.id not in ("self", "cls") \
@@ -533,44 +687,55 @@ def run(repo: Repo, rep: Report) -> None:  # noqa: F811
                                     and not any(kind == "test" for _c, kind in H.branch_of(mod, x, n)) \
                                     and not any(isinstance(p, ast.Call) and p is not n for p in _upto(mod, x, n)):
                                 add_sink(x, x.id)
+            # a parameter written after the keyword GRAPH of a text built here (in a private method that does this for its callers
+            # the parameter is judged where the method is called, above)
+            if f.name not in wrappers:
+                fparams = set(H.params_of(f)) - {"self", "cls"}
+                for _tn, text, args in H.templates(mod, f):
+                    for k, (a, _b) in enumerate(H.placeholders(text)):
+                        if args is None or k >= len(args) or not _re.search(r"\bGRAPH\s*$", text[:a], _re.I):
+                            continue
+                        for x in H.backward_slice(args[k], f, mod):
+                            if isinstance(x, ast.Name) and isinstance(x.ctx, ast.Load) and x.id in fparams and not isinstance(mod.parent.get(id(x)), ast.Attribute) \
+                                    and not any(kind == "test" for _c, kind in H.branch_of(mod, x, f)):
+                                add_sink(x, x.id)
             for node, x in sinks:
-                ok = False
-                for cond, kind in H.branch_of(mod, node, f):
-                    if kind == "test":
-                        continue
-                    pol = _graph_polarity(cond.test, x, dflt)  # type: ignore[attr-defined]
-                    if (pol is True and kind == "body") or (pol is False and kind == "orelse"):
-                        ok = True
-                        break
-                rep.ob("C20.i-default-graph-never-named", mod, "%s.%s" % (cls, mname), node, ok,
-                       "only reached for a graph other than the dataset's default graph" if ok else
-                       "the graph designator %s reaches the endpoint without a test that it is not the dataset's default graph: the default graph is "
-                       "addressed as a named graph <urn:x-rdflib:default> (reads of the default graph do not see what was written)" % x, node=node)
+                ok = guarded(node, x, f) or guarded_by_caller(x, f, fns)
+                rep.ob("C20.i-default-graph-never-named", mod, "%s.%s" % (cls, entry), node, ok,
+                       "only reached for a graph other than the dataset's default graph" + H.via(chain) if ok else
+                       "the graph designator %s reaches the endpoint%s without a test that it is not the dataset's default graph: the default graph is "
+                       "addressed as a named graph <urn:x-rdflib:default> (reads of the default graph do not see what was written)" % (x, H.via(chain)), node=node)
 
+
+def _rule_j(cx: _Cx) -> None:
+    repo, rep, H, mod, con, base, upd, both, roles = cx.all()
+    dflt = _default_graph_names(cx)
     # ------------------------------------------------------------------ (j) the default-graph predicate itself
     rep.rule("C20.j-default-graph-predicate-complete",
-             "every return of SPARQLStore._is_contextual that can answer True has compared the designator with DATASET_DEFAULT_GRAPH_ID - in "
+             "every return of SPARQLStore's default-graph predicate (its private one-argument method that refers to DATASET_DEFAULT_GRAPH_ID) "
+             "that can answer True has compared the designator with DATASET_DEFAULT_GRAPH_ID - in "
              "each representation the predicate accepts (a Graph, or the identifier that Graph.query / Graph.update pass): otherwise "
              "Dataset(store).update('INSERT DATA {..}') is rewritten into GRAPH <urn:x-rdflib:default> {..} and Dataset.query reads that graph", floor=2)
-    pred = base.get("_is_contextual")
-    if pred is None:
-        raise AnalysisError("SPARQLStore._is_contextual vanished")
-    rep.analysed("rdflib/plugins/stores/sparqlstore.py:SPARQLStore._is_contextual")
-    gp = CFG(pred)
-    for r in [n for n in own_nodes(pred) if isinstance(n, ast.Return)]:
-        if r.value is None or (isinstance(r.value, ast.Constant) and r.value.value in (False, None)):
-            continue
-        ok = H.mentions(r.value, dflt, pred, mod)
-        if not ok:
-            # or every path to the return has passed a test against the default-graph identifier that left on the other branch
-            tests = {gp.by_ast[id(n)] for n in own_nodes(pred) if isinstance(n, ast.If) and H.mentions(n.test, dflt, pred, mod)
-                     and n.body and isinstance(n.body[-1], ast.Return) and id(n) in gp.by_ast}
-            ok = bool(tests) and gp.must_pass_before(gp.node_of(r, mod), tests)
-        rep.ob("C20.j-default-graph-predicate-complete", mod, "SPARQLStore._is_contextual", r, ok,
-               "answers after comparing with the default-graph identifier" if ok else
-               "this return answers True for a designator without comparing it with DATASET_DEFAULT_GRAPH_ID: the dataset's default graph, given in "
-               "this form, is treated as a named graph", node=r)
+    for pname, pred in sorted(_default_graph_predicates(cx).items()):
+        rep.analysed("rdflib/plugins/stores/sparqlstore.py:SPARQLStore." + pname)
+        gp = CFG(pred)
+        for r in [n for n in own_nodes(pred) if isinstance(n, ast.Return)]:
+            if r.value is None or (isinstance(r.value, ast.Constant) and r.value.value in (False, None)):
+                continue
+            ok = H.mentions(r.value, dflt, pred, mod)
+            if not ok:
+                # or every path to the return has passed a test against the default-graph identifier that left on the other branch
+                tests = {gp.by_ast[id(n)] for n in own_nodes(pred) if isinstance(n, ast.If) and H.mentions(n.test, dflt, pred, mod)
+                         and n.body and isinstance(n.body[-1], ast.Return) and id(n) in gp.by_ast}
+                ok = bool(tests) and gp.must_pass_before(gp.node_of(r, mod), tests)
+            rep.ob("C20.j-default-graph-predicate-complete", mod, "SPARQLStore." + pname, r, ok,
+                   "answers after comparing with the default-graph identifier" if ok else
+                   "this return answers True for a designator without comparing it with DATASET_DEFAULT_GRAPH_ID: the dataset's default graph, given in "
+                   "this form, is treated as a named graph", node=r)
 
+
+def _rule_k(cx: _Cx) -> None:
+    repo, rep, H, mod, con, base, upd, both, roles = cx.all()
     # ------------------------------------------------------------------ (k) paging belongs to SELECT
     rep.rule("C20.k-paging-only-for-select",
              "in a method that chooses between a SELECT and an ASK form of its query, every read of the graph's paging attributes (LIMIT / OFFSET / "
@@ -635,13 +800,14 @@ def run(repo: Repo, rep: Report) -> None:  # noqa: F811
     if not n_forms:
         raise AnalysisError("no SPARQLStore method chooses between SELECT and ASK any more")
 
+
+def _rule_l(cx: _Cx) -> None:
+    repo, rep, H, mod, con, base, upd, both, roles = cx.all()
     # ------------------------------------------------------------------ (l) a rejected autocommit write is not kept queued
-    queue = {norm(r.value) for r in own_nodes(upd["_transaction"]) if isinstance(r, ast.Return) and r.value is not None}
-    if len(queue) != 1:
-        raise AnalysisError("SPARQLUpdateStore._transaction does not return one queue attribute: %s" % sorted(queue))
-    qattr = queue.pop()
+    qattr = roles.qattr  # the attribute whose elements commit() joins and sends
+    senders = roles.carriers("update")
     rep.rule("C20.l-failed-autocommit-write-dropped",
-             "in every SPARQLUpdateStore method that sends (self._update), on the autocommit path the queue is emptied BEFORE the send (or in an "
+             "in every SPARQLUpdateStore method that sends (reaches the connector's update()), on the autocommit path the queue is emptied BEFORE the send (or in an "
              "exception handler / finally around it): the send may raise (endpoint rejects the update), and an edit still queued then is "
              "re-sent in front of every later write, which fails again - after one rejected add() no later add() reaches the endpoint", floor=1)
 
@@ -653,7 +819,9 @@ def run(repo: Repo, rep: Report) -> None:  # noqa: F811
         return isinstance(st, ast.Expr) and isinstance(st.value, ast.Call) and norm(st.value.func) in (qattr + ".clear", "self.rollback")
 
     for mname, f in upd.items():
-        sends = [c for c in _self_calls(f) if c.func.attr == "_update"]
+        if mname in senders:
+            continue  # a private method that carries its caller's text to the connector: judged where it is called
+        sends = roles.sites(f, "SPARQLUpdateStore", "update")
         if not sends:
             continue
         g = CFG(f)
@@ -684,6 +852,9 @@ def run(repo: Repo, rep: Report) -> None:  # noqa: F811
                    "with autocommit on, the queue is only emptied after the send: if the endpoint rejects the update the exception leaves the edit "
                    "queued and it is sent again, in front of every later write", node=s)
 
+
+def _rule_m(cx: _Cx) -> None:
+    repo, rep, H, mod, con, base, upd, both, roles = cx.all()
     # ------------------------------------------------------------------ (m) request address keeps the endpoint's own query string
     rep.rule("C20.m-endpoint-query-string-kept",
              "in the SPARQL connector every request whose address is built from urlencode()d parameters chooses the separator after testing "
@@ -724,6 +895,9 @@ def run(repo: Repo, rep: Report) -> None:  # noqa: F811
                     info_m.append("%s %s :: %s" % (m.rel, q, norm(c)[:100]))
     rep.info["C20.m-package-wide-fixed-separator (information, other properties' scope)"] = info_m
 
+
+def _rule_n(cx: _Cx) -> None:
+    repo, rep, H, mod, con, base, upd, both, roles = cx.all()
     # ------------------------------------------------------------------ (n) what triples() yields
     rep.rule("C20.n-triples-yield-context-iterator",
              "every Store implementation's triples()/triples_choices() yields pairs (triple, <iterator of contexts>): the second member is never None "
@@ -808,3 +982,555 @@ def _select_determinants(f: ast.AST) -> set[str] | None:
             if forms == {"SELECT", "ASK"}:
                 return {x.id for x in ast.walk(test) if isinstance(x, ast.Name)}
     return None
+
+
+# ======================================================================================================================
+# third layer: what the text that is sent says (projection, graph management, variable names, prefix declarations, the
+# separator of queued updates, the two kinds of WHERE), which argument forms are accepted, what a result row is asked
+# for, and that a context of the same store is not copied onto itself
+# ======================================================================================================================
+
+import re as _re  # noqa: E402
+
+_SELECT_HEAD = _re.compile(r"\s*SELECT\s+(?P<mod>(?:DISTINCT|REDUCED)\s+)?(?P<proj>(?:[?$]\w+\s*)+)(?:WHERE\s*)?\{(?P<body>.*)$", _re.I | _re.S)
+_MGMT_HEAD = _re.compile(r"\s*(?P<op>CREATE|DROP|CLEAR)\s+(?P<rest>(?:SILENT\s+)?(?:GRAPH|DEFAULT|NAMED|ALL)\b.*)$", _re.I | _re.S)
+_VAR_SIGIL_END = _re.compile(r"[?$]$")
+
+
+def _guarded_by_isinstance(m, node: ast.AST, f: ast.AST, name: str, classes: set[str]) -> bool:
+    """is node evaluated only when `isinstance(name, <one of classes>)` holds (enclosing if / conditional expression)"""
+    from vlib import h_c20 as H
+
+    for cond, kind in H.branch_of(m, node, f):
+        if kind == "test":
+            continue
+        t = H.isinstance_test(cond.test)  # type: ignore[attr-defined]
+        if t is None or t[0] != name or not set(t[1]) <= classes:
+            continue
+        if (t[2] and kind == "body") or (not t[2] and kind == "orelse"):
+            return True
+    return False
+
+
+def _store_identity_test(test: ast.AST, x: str) -> bool | None:
+    """True: the test holds when <x>.store IS self.store; False: when it is NOT; None: the test says nothing about it"""
+    pol = True
+    while isinstance(test, ast.UnaryOp) and isinstance(test.op, ast.Not):
+        test, pol = test.operand, not pol
+    if isinstance(test, ast.Compare) and len(test.ops) == 1 and isinstance(test.ops[0], (ast.Is, ast.IsNot)):
+        sides = {norm(test.left), norm(test.comparators[0])}
+        if sides == {x + ".store", "self.store"}:
+            return pol if isinstance(test.ops[0], ast.Is) else not pol
+    return None
+
+
+def _always_leaves(body: list[ast.stmt]) -> bool:
+    return bool(body) and isinstance(body[-1], (ast.Return, ast.Raise, ast.Continue, ast.Break))
+
+
+_EXPLANATION_3 = (
+    " Third layer: (o) a result row is asked only for variables; (p) a SELECT that projects variables away says DISTINCT; (q) graph "
+    "management on a named graph is SILENT; (r) variable names are written through Variable; (s) PREFIX declarations come from a mapping in "
+    "which the call's namespaces override the store's; (t) a context graph of the same store is never copied onto itself; (u) queued text "
+    "cannot end with the separator commit() joins with; (v) text is injected after `WHERE {` only once DELETE WHERE is expanded; (w) no "
+    "declared argument form is asserted away.")
+
+
+def _variable_names(cx: _Cx) -> set[str]:
+    var_names = cx.H.imported_as(cx.mod, "term", "Variable")
+    if not var_names:
+        raise AnalysisError("sparqlstore no longer imports Variable")
+    return var_names
+
+
+def _rule_o(cx: _Cx) -> None:
+    repo, rep, H, mod, con, base, upd, both, roles = cx.all()
+    var_names = _variable_names(cx)
+    # ------------------------------------------------------------------ (o) only variables are looked up in a result row
+    rep.rule("C20.o-row-lookup-only-for-variables",
+             "in SPARQLStore/SPARQLUpdateStore a term of the pattern is looked up in a row of the endpoint's answer (row.get(t) / row[t]) only where "
+             "it is known to be a Variable (inside `isinstance(t, Variable)`, or bound to Variable(..) only): a bound term is a str as well, and "
+             "ResultRow looks a str up as a variable NAME - g.triples((None, None, Literal('p'))) yielded the predicate in the object position", floor=3)
+    for cls, ms in both:
+        for mname, f in ms.items():
+            defs = H.local_defs(f)
+            # the calls whose value is the endpoint's answer: the ones that reach the connector's query() and the store's own query()
+            answers = {id(c) for c in roles.sites(f, cls, "query")} | {id(c) for c in own_nodes(f, include_nested=True) if isinstance(c, ast.Call)
+                                                                      and norm(c.func) in ("self.query", "SPARQLStore.query")}
+            res = {nm for nm, ds in defs.items() if any(v is not None and any(id(c) in answers for c in ast.walk(v)) for _s, v in ds)}
+            rows: set[str] = set()
+            for n in own_nodes(f, include_nested=True):
+                if isinstance(n, (ast.For, ast.comprehension)) and isinstance(n.target, ast.Name) and any(
+                        (isinstance(x, ast.Name) and x.id in res) or id(x) in answers for x in ast.walk(n.iter)):
+                    rows.add(n.target.id)
+            for n in own_nodes(f, include_nested=True):
+                key = None
+                if isinstance(n, ast.Call) and isinstance(n.func, ast.Attribute) and n.func.attr == "get" and isinstance(n.func.value, ast.Name) and n.func.value.id in rows and n.args:
+                    key = n.args[0]
+                elif isinstance(n, ast.Subscript) and isinstance(n.value, ast.Name) and n.value.id in rows and isinstance(n.ctx, ast.Load):
+                    key = n.slice
+                elif isinstance(n, ast.Call) and isinstance(n.func, ast.Name) and n.func.id == "getattr" and len(n.args) >= 2 and isinstance(n.args[0], ast.Name) and n.args[0].id in rows:
+                    key = n.args[1]
+                if key is None or isinstance(key, ast.Constant):
+                    continue
+                ok = False
+                if isinstance(key, ast.Name):
+                    ds = defs.get(key.id, [])
+                    ok = _guarded_by_isinstance(mod, n, f, key.id, var_names) or (
+                        bool(ds) and all(v is not None and isinstance(v, ast.Call) and isinstance(v.func, ast.Name) and v.func.id in var_names for _s, v in ds))
+                elif isinstance(key, ast.Call) and isinstance(key.func, ast.Name) and key.func.id in var_names:
+                    ok = True
+                rep.ob("C20.o-row-lookup-only-for-variables", mod, "%s.%s" % (cls, mname), n, ok,
+                       "the key is a Variable here" if ok else
+                       "a term that need not be a Variable is looked up in the result row: a bound term whose text is the name of one of the query's "
+                       "variables (Literal('p'), URIRef('o')) is replaced by the value of that variable", node=n)
+
+
+def _rule_p(cx: _Cx) -> None:
+    repo, rep, H, mod, con, base, upd, both, roles = cx.all()
+    var_names = _variable_names(cx)
+    # ------------------------------------------------------------------ (p) projecting variables away needs DISTINCT
+    rep.rule("C20.p-projection-needs-distinct",
+             "every SELECT text of SPARQLStore/SPARQLUpdateStore with a fixed list of projected variables whose pattern can bind a variable that is "
+             "not projected (a ?var of the text, or a %s filled from an expression that can be a Variable(..)) says DISTINCT: the answers feed "
+             "set-valued listings (contexts, triples), and without it there is one row per solution of the hidden variables - "
+             "store.contexts((s, None, None)) listed a graph once per matching triple", floor=2)
+    for cls, ms in both:
+        for mname, f in ms.items():
+            for node, text, args in H.templates(mod, f):
+                mt = _SELECT_HEAD.match(text)
+                if mt is None:
+                    continue
+                proj = set(_re.findall(r"[?$](\w+)", mt.group("proj")))
+                body = mt.group("body")
+                hidden = set(_re.findall(r"[?$](\w+)", body)) - proj
+                n_before = len(H.placeholders(text[:mt.start("body")]))
+                n_body = len(H.placeholders(body))
+                may_var = False
+                if n_body:
+                    if args is None or len(args) < n_before + n_body:
+                        may_var = True  # what is formatted in is not known: it may be a variable
+                    else:
+                        for a in args[n_before:n_before + n_body]:
+                            sl = H.backward_slice(a, f, mod)
+                            if H.calls_name(sl, var_names) or any(
+                                    (tf := repo.typed.type_of(mod.name, x)) is not None and "Variable" in tf.text for x in sl if isinstance(x, ast.Name)):
+                                may_var = True
+                needs = bool(hidden) or may_var
+                ok = not needs or (mt.group("mod") or "").strip().upper() == "DISTINCT"
+                rep.ob("C20.p-projection-needs-distinct", mod, "%s.%s" % (cls, mname), node, ok,
+                       ("DISTINCT" if needs else "every variable of the pattern is projected") if ok else
+                       "the pattern can bind variables that are not projected (%s) and the SELECT is not DISTINCT: one row per solution of those, so the "
+                       "same graph / term is listed several times" % (", ".join(sorted(hidden)) or "a wildcard of the pattern"), node=node)
+
+
+def _rule_q(cx: _Cx) -> None:
+    repo, rep, H, mod, con, base, upd, both, roles = cx.all()
+    # ------------------------------------------------------------------ (q) graph management never fails on the state of the graph
+    rep.rule("C20.q-graph-management-silent",
+             "every CREATE / DROP / CLEAR text of the SPARQL store that addresses one named graph says SILENT (DEFAULT / NAMED / ALL cannot fail): "
+             "without it the endpoint answers an error when the graph exists already (CREATE) or does not exist (DROP, CLEAR), whereas "
+             "Store.add_graph / remove_graph have no effect then - Dataset(store).graph(id) of an existing graph raised HTTP 400, and with "
+             "autocommit off it made the whole pending batch fail", floor=3)
+    for cls, ms in both:
+        for mname, f in ms.items():
+            for node, text, _args in H.templates(mod, f):
+                mt = _MGMT_HEAD.match(text)
+                if mt is None:
+                    continue
+                rest = mt.group("rest").lstrip().upper()
+                ok = rest.startswith("SILENT") or (mt.group("op").upper() != "CREATE" and rest.split(None, 1)[:1] in (["DEFAULT"], ["NAMED"], ["ALL"]))
+                rep.ob("C20.q-graph-management-silent", mod, "%s.%s" % (cls, mname), node, ok,
+                       "cannot fail on the existence of the graph" if ok else
+                       "%s on a named graph without SILENT: an error at the endpoint when the graph %s, where a local store does nothing"
+                       % (mt.group("op").upper(), "exists already" if mt.group("op").upper() == "CREATE" else "does not exist"), node=node)
+
+
+def _rule_r(cx: _Cx) -> None:
+    repo, rep, H, mod, con, base, upd, both, roles = cx.all()
+    var_names = _variable_names(cx)
+    # ------------------------------------------------------------------ (r) variable names are written by Variable
+    rep.rule("C20.r-variable-names-through-Variable",
+             "in SPARQLStore/SPARQLUpdateStore the name of a variable that comes from run-time data is written through Variable(name).n3(), which "
+             "accepts 'x' and '?x' alike, never by putting '?' in front of it: the variable list of every VALUES block is built with Variable(..), "
+             "and no text ends in '?' / '$' right before a formatted value - query(q, initBindings={'?s': x}), fine on a local graph, sent "
+             "`VALUES ( ??s )`, a syntax error (counted per entry point of the class and text, whichever private helper builds the text)", floor=2)
+    # one obligation per (entry point of the class, text) - the text may be built in a private helper the entry point reaches
+    for cls, _ms in both:
+        scope = roles.scope_base if cls == roles.base_cls else roles.scope_upd
+        for entry, _owner, f, chain in scope.scopes():
+            where = "%s.%s" % (cls, entry)
+            for node, text, args in H.templates(mod, f):
+                sp = H.placeholders(text)
+                for k, (a, _b) in enumerate(sp):
+                    if _VAR_SIGIL_END.search(text[:a]):
+                        rep.ob("C20.r-variable-names-through-Variable", mod, where, node, False,
+                               "a '?' is put in front of a formatted value: a name given as '?x' becomes '??x'", node=node)
+                mt = _re.search(r"\bVALUES\s*\(\s*$", text[:sp[0][0]], _re.I) if sp else None
+                if mt is None:
+                    continue
+                if not args:
+                    raise AnalysisError("%s: the arguments of the VALUES template are not visible" % where)
+                sl = H.backward_slice(args[0], f, mod)
+                ok = H.calls_name(sl, var_names) and not any(isinstance(x, ast.Constant) and isinstance(x.value, str) and _VAR_SIGIL_END.search(x.value) for x in sl)
+                rep.ob("C20.r-variable-names-through-Variable", mod, where, args[0], ok,
+                       "names written by Variable(..)" + H.via(chain) if ok else
+                       "the variable list of the VALUES block is not written through Variable(..): a binding name given with its '?' "
+                       "(as Graph.query accepts it) becomes '??name', a syntax error at the endpoint", node=args[0])
+            for n in own_nodes(f, include_nested=True):
+                if isinstance(n, ast.BinOp) and isinstance(n.op, ast.Add) and isinstance(n.left, ast.Constant) and isinstance(n.left.value, str) \
+                        and _VAR_SIGIL_END.search(n.left.value) and not isinstance(n.right, ast.Constant):
+                    rep.ob("C20.r-variable-names-through-Variable", mod, where, n, False,
+                           "a '?' is concatenated with a run-time name: a name given as '?x' becomes '??x'", node=n)
+
+
+def _rule_s(cx: _Cx) -> None:
+    repo, rep, H, mod, con, base, upd, both, roles = cx.all()
+    # ------------------------------------------------------------------ (s) one declaration per prefix, the call's namespaces win
+    rep.rule("C20.s-prefix-declared-once-call-wins",
+             "where the SPARQL store writes PREFIX declarations in front of a query, the pairs come from a MAPPING (each prefix once), and when it "
+             "merges the store's bindings with the ones given in the call (initNs) the call's come last: from a set / list of pairs both "
+             "declarations of a prefix are written and the later one wins at the endpoint, so g.query(q, initNs={'ex': A}) on a store that binds "
+             "ex: to B could be evaluated with B", floor=2)
+    for cls, ms in both:
+        for mname, f in ms.items():
+            for node, text, args in H.templates(mod, f):
+                if not _re.match(r"\s*PREFIX\b", text, _re.I) or not H.placeholders(text):
+                    continue
+                loop = next((g for p in mod.parents(node) if isinstance(p, (ast.ListComp, ast.GeneratorExp, ast.SetComp)) for g in p.generators), None) \
+                    or next((p for p in mod.parents(node) if isinstance(p, ast.For)), None)
+                where = "%s.%s" % (cls, mname)
+                if loop is None:
+                    raise AnalysisError("%s: PREFIX declaration is not written in a loop over the bindings" % where)
+                it = loop.iter
+                src = it.func.value if isinstance(it, ast.Call) and isinstance(it.func, ast.Attribute) and it.func.attr in ("items", "keys") and not it.args else it
+                tf = repo.typed.type_of(mod.name, src)
+                mapping = tf is not None and _re.match(r"(builtins\.|typing\.|collections\.(abc\.)?)?(dict|Mapping|MutableMapping|defaultdict|OrderedDict|ChainMap)\b", tf.text, _re.I) is not None
+                vals = [v for _s, v in H.local_defs(f).get(src.id, [])] if isinstance(src, ast.Name) else [src]
+                if tf is None:
+                    mapping = bool(vals) and all(isinstance(v, (ast.Dict, ast.DictComp)) or (isinstance(v, ast.Call) and norm(v.func) in ("dict", "ChainMap", "collections.ChainMap")) for v in vals)
+                rep.ob("C20.s-prefix-declared-once-call-wins", mod, where, it, mapping,
+                       "declarations are written from a mapping: one per prefix" if mapping else
+                       "the PREFIX declarations are written from %s, not from a mapping: a prefix bound in the store and given in the call is declared "
+                       "twice and which namespace the endpoint uses depends on the order" % (tf.text if tf is not None else norm(src)), node=it)
+                if not mapping:
+                    continue
+                params = _fn_params(f) - {"self", "cls"}
+                for v in vals:
+                    parts: list[ast.AST] = []
+                    if isinstance(v, ast.Dict) and any(k is None for k in v.keys):
+                        parts = [x for k, x in zip(v.keys, v.values) if k is None]
+                    elif isinstance(v, ast.Call) and norm(v.func) == "dict" and v.args:
+                        parts = list(v.args) + [k.value for k in v.keywords if k.arg is None]
+                    elif isinstance(v, ast.Call) and norm(v.func).endswith("ChainMap"):
+                        parts = list(reversed(v.args))  # the first map of a ChainMap wins
+                    elif isinstance(v, ast.BinOp) and isinstance(v.op, ast.BitOr):
+                        parts = [v.left, v.right]
+                    if len(parts) < 2:
+                        continue
+                    own = [i for i, x in enumerate(parts) if any(isinstance(y, ast.Attribute) and isinstance(y.value, ast.Name) and y.value.id == "self" for y in ast.walk(x))]
+                    given = [i for i, x in enumerate(parts) if any(isinstance(y, ast.Name) and y.id in params for y in ast.walk(x))]
+                    if not own or not given:
+                        continue
+                    ok = max(own) < min(given)
+                    rep.ob("C20.s-prefix-declared-once-call-wins", mod, where, v, ok,
+                           "the namespaces given in the call override the store's" if ok else
+                           "the store's bindings are merged in after the ones given in the call: initNs cannot override a prefix bound in the store", node=v)
+
+
+def _rule_t(cx: _Cx) -> None:
+    repo, rep, H, mod, con, base, upd, both, roles = cx.all()
+    # ------------------------------------------------------------------ (t) a context of the same store is not copied onto itself
+    gm = repo.mod("rdflib.graph")
+    rep.rule("C20.t-no-copy-of-own-context",
+             "in the Graph classes, where a method copies a Graph given as argument into a graph of its own store (`<own graph> += <argument>` / "
+             "__iadd__), the copy is excluded for an argument whose .store IS self.store: copying a graph onto itself reads all of it and writes "
+             "it again; on a SPARQLUpdateStore ds.add((s, p, o, ds.graph(g))) re-read the named graph and queued it as INSERT DATA, which "
+             "brought back a triple removed earlier in the same transaction", floor=1)
+    graph_classes = set(repo.typed.subclasses("rdflib.graph.Graph"))
+    for q, f in gm.functions():
+        cn = q.rsplit(".", 1)[0] if "." in q else None
+        if cn is None or ("rdflib.graph." + cn) not in graph_classes:
+            continue
+        params = _fn_params(f) - {"self"}
+        defs = H.local_defs(f)
+        g = None
+        for n in own_nodes(f):
+            dst = srcx = None
+            if isinstance(n, ast.AugAssign) and isinstance(n.op, ast.Add):
+                dst, srcx = n.target, n.value
+            elif isinstance(n, ast.Call) and isinstance(n.func, ast.Attribute) and n.func.attr == "__iadd__" and len(n.args) == 1:
+                dst, srcx = n.func.value, n.args[0]
+            if not (isinstance(dst, ast.Name) and isinstance(srcx, ast.Name) and srcx.id in params):
+                continue
+            td, ts = repo.typed.type_of(gm.name, dst), repo.typed.type_of(gm.name, srcx)
+            if ts is None or "Graph" not in ts.text or (td is not None and "Graph" not in td.text):
+                continue
+            # the destination is a graph of this object's store: obtained from a method of self
+            if not any(v is not None and any(isinstance(c, ast.Call) and isinstance(c.func, ast.Attribute) and isinstance(c.func.value, ast.Name) and c.func.value.id == "self"
+                                             for c in ast.walk(v)) for _s, v in defs.get(dst.id, [])):
+                continue
+            g = g or CFG(f)
+            ok = False
+            for cond, kind in H.branch_of(gm, n, f):
+                pol = _store_identity_test(cond.test, srcx.id) if kind != "test" else None  # type: ignore[attr-defined]
+                if (pol is False and kind == "body") or (pol is True and kind == "orelse"):
+                    ok = True
+            if not ok:
+                guards = {g.by_ast[id(i)] for i in own_nodes(f) if isinstance(i, ast.If) and id(i) in g.by_ast and _store_identity_test(i.test, srcx.id) is True
+                          and _always_leaves(i.body) and not any(n is x for s_ in i.body for x in ast.walk(s_))}
+                ok = bool(guards) and g.must_pass_before(g.node_of(n, gm), guards)
+            rep.analysed("rdflib/graph.py:" + q)
+            rep.ob("C20.t-no-copy-of-own-context", gm, q, n, ok,
+                   "not reached for a graph of this store" if ok else
+                   "the argument graph is copied into this store's graph of the same name even when it IS that graph (same store): the whole graph is read "
+                   "and written again - on a SPARQL endpoint with autocommit off this re-inserts triples removed earlier in the transaction", node=n)
+
+
+def _rule_u(cx: _Cx) -> None:
+    repo, rep, H, mod, con, base, upd, both, roles = cx.all()
+    # ------------------------------------------------------------------ (u) queued text cannot end with the join separator
+    sep = roles.separator()  # what commit() joins the queue with before it sends it
+    if not isinstance(sep, str) or not sep.strip():
+        raise AnalysisError("SPARQLUpdateStore.commit: the separator the queue is joined with is not a visible constant")
+    sep = sep.strip()
+    rep.rule("C20.u-queued-text-never-ends-with-separator",
+             "commit() joins the queued updates with '%s'; every text a SPARQLUpdateStore method queues either ends with constant text of a "
+             "template that does not end with that separator, or - where its end is the caller's text - is queued only after a statement that "
+             "removes a trailing separator (`if t.endswith(sep): t = t[:-n]`, t.rstrip(..sep..), removesuffix, a substitution anchored at the end): "
+             "otherwise update('... ;') followed by another write is sent as '; ;' with autocommit off and the whole transaction is rejected" % sep, floor=4)
+
+    def strips_sep(st: ast.AST, name: str) -> bool:
+        """does the statement remove a trailing separator from the text held by `name` (re-binding the name)"""
+        def consts(e: ast.AST) -> list[str]:
+            return [x.value for x in ast.walk(e) if isinstance(x, ast.Constant) and isinstance(x.value, str)]
+
+        def rebinding(a: ast.AST) -> ast.expr | None:
+            return a.value if isinstance(a, ast.Assign) and any(isinstance(t, ast.Name) and t.id == name for t in a.targets) else None
+
+        if isinstance(st, ast.If):
+            t = st.test
+            test_ok = any(isinstance(c, ast.Call) and isinstance(c.func, ast.Attribute) and c.func.attr == "endswith" and norm(c.func.value) == name
+                          and any(sep in s for s in consts(c)) for c in ast.walk(t))
+            cut = any((v := rebinding(a)) is not None and isinstance(v, ast.Subscript) and norm(v.value) == name and isinstance(v.slice, ast.Slice) and v.slice.lower is None
+                      and v.slice.upper is not None for a in st.body)
+            return test_ok and cut
+        v = rebinding(st)
+        if v is None:
+            return False
+        if isinstance(v, ast.IfExp):
+            return any(isinstance(c, ast.Call) and isinstance(c.func, ast.Attribute) and c.func.attr == "endswith" and any(sep in s for s in consts(c)) for c in ast.walk(v.test))
+        if isinstance(v, ast.Call) and isinstance(v.func, ast.Attribute) and v.func.attr in ("rstrip", "removesuffix") and any(sep in s for s in consts(v)):
+            return any(isinstance(x, ast.Name) and x.id == name for x in ast.walk(v.func.value))
+        if isinstance(v, ast.Call) and isinstance(v.func, ast.Attribute) and v.func.attr in ("sub", "subn"):
+            pats = consts(v) + [p[0] for p in [H.pattern_of_receiver(mod, v.func.value)] if p]
+            return any(sep in p and (p.rstrip().endswith("$") or p.rstrip().endswith("\\Z")) for p in pats) and any(isinstance(x, ast.Name) and x.id == name for x in ast.walk(v))
+        return False
+
+    accessors = roles.accessors()
+    for mname, f in upd.items():
+        if mname in accessors:
+            continue
+        g = None
+        for n in roles.enqueues(f):
+            if isinstance(n, ast.Call) and len(n.args) == 1 and not n.keywords:
+                arg = n.args[0]
+            elif isinstance(n, ast.AugAssign):
+                arg = n.value
+            else:
+                raise AnalysisError("SPARQLUpdateStore.%s adds to the queue in a form that is not modelled: %s" % (mname, norm(n)[:60]))
+            tails = H.text_tails(arg, f, mod)
+            where = "SPARQLUpdateStore." + mname
+            if tails is not None:
+                bad = [t for t in tails if t.rstrip().endswith(sep)]
+                rep.ob("C20.u-queued-text-never-ends-with-separator", mod, where, n, not bad,
+                       "ends with the constant text of its template" if not bad else "the queued template itself ends with the separator: %r" % bad[0][-20:], node=n)
+                continue
+            ok = False
+            if isinstance(arg, ast.Name):
+                g = g or CFG(f)
+                en = g.node_of(n, mod)
+                for st in own_nodes(f):
+                    if id(st) in g.by_ast and strips_sep(st, arg.id):
+                        sn = g.by_ast[id(st)]
+                        inside = {id(x) for x in ast.walk(st)}
+                        later = [a for a in own_nodes(f) if isinstance(a, (ast.Assign, ast.AugAssign, ast.AnnAssign)) and id(a) not in inside and id(a) in g.by_ast
+                                 and any(isinstance(t, ast.Name) and t.id == arg.id for t in (a.targets if isinstance(a, ast.Assign) else [a.target]))
+                                 and g.by_ast[id(a)] in g.reach(sn) and en in g.reach(g.by_ast[id(a)])]
+                        if g.must_pass_before(en, {sn}) and not later:
+                            ok = True
+            rep.ob("C20.u-queued-text-never-ends-with-separator", mod, where, n, ok,
+                   "a trailing separator is removed before the text is queued" if ok else
+                   "the end of the queued text is the caller's, and nothing removes a trailing '%s' before it is queued: commit() joins it to the next "
+                   "pending update with another '%s' (a syntax error: the whole transaction fails)" % (sep, sep), node=n)
+
+
+def _rule_v(cx: _Cx) -> None:
+    repo, rep, H, mod, con, base, upd, both, roles = cx.all()
+    # ------------------------------------------------------------------ (v) WHERE { of the short form DELETE WHERE is a quad pattern
+    rep.rule("C20.v-where-injection-after-delete-where-expansion",
+             "a regular-expression substitution of the SPARQL store whose pattern finds `WHERE {` (it puts text - the VALUES block of initBindings - "
+             "at the start of every WHERE group) either cannot match in `DELETE WHERE {`, or is applied to text that went through a method of the "
+             "store using a regular expression that recognises the head `DELETE WHERE` (and not a plain `WHERE`): the braces of the short form "
+             "enclose a quad pattern in which VALUES is a syntax error, so update('DELETE WHERE {?s ?p ?o}', initBindings={'s': x}) deleted nothing", floor=1)
+    short_form, long_form = "DELETE WHERE {", "DELETE { ?s ?p ?o } WHERE {"
+
+    def recognises_short_form(fn: ast.AST, seen: set[int]) -> bool:
+        if id(fn) in seen:
+            return False
+        seen.add(id(fn))
+        for x in own_nodes(fn, include_nested=True):
+            if isinstance(x, ast.Call) and isinstance(x.func, ast.Attribute) and x.func.attr in ("search", "match", "fullmatch", "finditer", "findall", "sub", "subn", "split"):
+                p = H.pattern_of_receiver(mod, x.func.value)
+                if p and H.sample_search(p[0], p[1], "DELETE WHERE ") and not H.sample_search(p[0], p[1], "} WHERE ") and not H.sample_search(p[0], p[1], "WHERE "):
+                    return True
+            if isinstance(x, ast.Call) and isinstance(x.func, ast.Attribute) and isinstance(x.func.value, ast.Name) and x.func.value.id == "self":
+                for ms in (upd, base):
+                    if x.func.attr in ms and recognises_short_form(ms[x.func.attr], seen):
+                        return True
+        return False
+
+    for cls, ms in both:
+        for mname, f in ms.items():
+            for n in own_nodes(f, include_nested=True):
+                if not (isinstance(n, ast.Call) and isinstance(n.func, ast.Attribute) and n.func.attr in ("sub", "subn")):
+                    continue
+                p = H.pattern_of_receiver(mod, n.func.value)
+                subject = n.args[1] if len(n.args) > 1 else next((k.value for k in n.keywords if k.arg == "string"), None)
+                if p is None and isinstance(n.func.value, ast.Name) and n.func.value.id == "re" and n.args:
+                    pv = H.StrEnv(mod, cls).value(n.args[0])
+                    p = (pv, 0) if isinstance(pv, str) else None
+                    subject = n.args[2] if len(n.args) > 2 else next((k.value for k in n.keywords if k.arg == "string"), None)
+                if p is None or not H.sample_search(p[0], p[1], long_form):
+                    continue
+                if not _re.search(r"WHERE", p[0], _re.I):
+                    continue  # finds the text by something else than the keyword (the block tokeniser)
+                ok = not H.sample_search(p[0], p[1], short_form)
+                if not ok and subject is not None:
+                    for x in H.backward_slice(subject, f, mod):
+                        if isinstance(x, ast.Call) and isinstance(x.func, ast.Attribute) and isinstance(x.func.value, ast.Name) and x.func.value.id == "self":
+                            callee = upd.get(x.func.attr) or base.get(x.func.attr)
+                            if callee is not None and recognises_short_form(callee, set()):
+                                ok = True
+                rep.ob("C20.v-where-injection-after-delete-where-expansion", mod, "%s.%s" % (cls, mname), n, ok,
+                       "the text has the short form DELETE WHERE expanded before the injection" if ok else
+                       "text is injected after every `WHERE {`, the one of the short form `DELETE WHERE { quad pattern }` included: VALUES inside a quad "
+                       "pattern is a syntax error, the update is rejected and nothing is deleted", node=n)
+
+
+def _rule_w(cx: _Cx) -> None:
+    repo, rep, H, mod, con, base, upd, both, roles = cx.all()
+    # ------------------------------------------------------------------ (w) a declared argument form is not asserted away
+    rep.rule("C20.w-declared-argument-forms-accepted",
+             "in SPARQLStore/SPARQLUpdateStore, a parameter annotated with several alternatives (Union[Query, str], Update | str) is never narrowed "
+             "by a bare `assert isinstance(p, T)` that leaves an annotated alternative out, and a method that takes text or a prepared "
+             "query/update tests the parameter in an `if isinstance` that converts the other form: store.query(prepareQuery(q)) - accepted by "
+             "every local store - failed with an AssertionError", floor=2)
+    for cls, ms in both:
+        for mname, f in ms.items():
+            if all(isinstance(s, (ast.Raise, ast.Expr, ast.Pass)) for s in f.body):
+                continue  # a stub that only refuses (read-only store)
+            where = "%s.%s" % (cls, mname)
+            a = f.args
+            anns = {x.arg: H.annotation_alternatives(x.annotation) for x in a.posonlyargs + a.args + a.kwonlyargs}
+            rebound = {nm for nm in H.local_defs(f)}
+            for n in own_nodes(f):
+                if isinstance(n, ast.Assert) and not H.under_type_checking(mod, n, f):
+                    t = H.isinstance_test(n.test)
+                    if t is None or not t[2] or t[0] not in anns:
+                        continue
+                    left_out = [x for x in anns[t[0]] if x not in t[1] and x not in ("Any", "object")]
+                    # (a parameter re-bound before the assert no longer holds the caller's value: not decided)
+                    if t[0] in rebound and any(st.lineno < n.lineno for st, _v in H.local_defs(f)[t[0]]):
+                        continue
+                    rep.ob("C20.w-declared-argument-forms-accepted", mod, where, n, not left_out,
+                           "asserts what the signature says" if not left_out else
+                           "the signature accepts %s for `%s`, the assert rejects it with a bare AssertionError (a query/update made with "
+                           "prepareQuery/prepareUpdate cannot be sent to the endpoint)" % (" / ".join(left_out), t[0]), node=n)
+            for p, alts in anns.items():
+                if "str" not in alts or not (set(alts) & {"Query", "Update"}):
+                    continue
+                tests = [n for n in own_nodes(f) if isinstance(n, (ast.If, ast.IfExp)) and (t := H.isinstance_test(n.test)) is not None and t[0] == p]
+                rep.ob("C20.w-declared-argument-forms-accepted", mod, where, "parameter %s: %s" % (p, " | ".join(alts)), bool(tests),
+                       "both forms are told apart" if tests else
+                       "`%s` may be text or a prepared %s, but the method never tests which: the prepared form is used as if it were text" % (p, "/".join(sorted(set(alts) - {"str"}))),
+                       node=f)
+
+
+# ---------------------------------------------------------------------- (x) parameters joined to an address that may have some
+def _rule_x(cx: "_Cx") -> None:
+    from vlib.h_c17 import str_parts
+
+    repo, rep = cx.repo, cx.rep
+    rid = "C20.x-parameters-joined-to-an-address-that-may-have-a-query"
+    rep.rule(rid, "the request reaches the endpoint with the query it was given: where the parameters of a request (urlencode(..)) are "
+             "concatenated to the address of an endpoint, the separator is chosen by whether the address already has a query part ('&' after "
+             "`?`, else '?'): with a constant '?' an endpoint such as http://host/sparql?apikey=x receives `apikey=x?query=..` and the query is "
+             "lost.  The store's connector and the SERVICE evaluator of the engine (the other place that talks to an endpoint) must agree", floor=2)
+    n = 0
+    for mname in ("rdflib.plugins.stores.sparqlconnector", "rdflib.plugins.sparql.evaluate"):
+        mod = repo.mod(mname)
+        for q, fn in mod.functions():
+            for node in own_nodes(fn):
+                if not isinstance(node, (ast.BinOp, ast.JoinedStr, ast.Call)):
+                    continue
+                par = mod.parent.get(id(node))
+                if isinstance(par, (ast.BinOp, ast.JoinedStr, ast.FormattedValue)):
+                    continue  # not the whole string-building expression
+                if isinstance(node, ast.Call) and not (isinstance(node.func, ast.Attribute) and node.func.attr in ("format", "join")):
+                    continue
+                parts = str_parts(node)
+                if parts is None and isinstance(node, ast.BinOp) and isinstance(node.op, ast.Add):
+                    parts = []
+                    x: ast.AST = node
+                    while isinstance(x, ast.BinOp) and isinstance(x.op, ast.Add):
+                        parts.insert(0, x.right)
+                        x = x.left
+                    parts.insert(0, x)
+                if not parts:
+                    continue
+                enc = [i for i, p in enumerate(parts) if isinstance(p, ast.Call) and norm(p.func).rsplit(".", 1)[-1] == "urlencode"]
+                if not enc or enc[0] == 0:
+                    continue
+                i = enc[0]
+                sep, address = parts[i - 1], [a for a in parts[:i - 1] if not isinstance(a, str)]
+                if isinstance(sep, str):
+                    # constant text right before the parameters: the separator is its end
+                    address = [a for a in parts[:i] if not isinstance(a, str)]
+                if not address:
+                    continue
+                n += 1
+                rep.analysed("%s.%s" % (mname, q))
+                # the separator: a conditional expression (or a local bound once to one) that asks the address for a '?'
+                cand = sep
+                if isinstance(cand, str):
+                    cand = ast.Constant(value=cand)
+                if isinstance(cand, ast.Name):
+                    defs = [st.value for st in own_nodes(fn) if isinstance(st, ast.Assign) and len(st.targets) == 1 and isinstance(st.targets[0], ast.Name) and st.targets[0].id == cand.id]
+                    cand = defs[0] if len(defs) == 1 else cand
+                addr_txt = {norm(a) for a in address}
+                asks = isinstance(cand, ast.IfExp) and any(
+                    isinstance(c, ast.Compare) and len(c.ops) == 1 and isinstance(c.ops[0], (ast.In, ast.NotIn)) and isinstance(c.left, ast.Constant)
+                    and c.left.value == "?" and norm(c.comparators[0]) in addr_txt for c in ast.walk(cand.test))
+                arms_ok = isinstance(cand, ast.IfExp) and {getattr(cand.body, "value", None), getattr(cand.orelse, "value", None)} == {"&", "?"}
+                ok = bool(asks and arms_ok)
+                rep.ob(rid, mod, q, node, ok, "" if ok else
+                       "the parameters are appended after the constant separator %s whatever the address %s looks like: an address with a query part of "
+                       "its own gets a second '?' and the endpoint never sees the parameter" % (repr(sep)[:30] if isinstance(sep, str) else norm(sep)[:30], " + ".join(sorted(addr_txt))[:60]), node=node)
+    if n < 2:
+        raise AnalysisError("the places where urlencode(..) is appended to an endpoint address (connector and SERVICE) were not both found (%d)" % n)
+
+
+# ======================================================================================================================
+# every rule is a layer of its own (vlib.core.layer): a rule that loses its anchor on the tree as it is, or on one of the
+# equivalent views of it, is judged by itself there and does not take the other rules with it
+# ======================================================================================================================
+_SECTIONS = (_rule_a, _rule_b, _rule_c, _rule_d, _rule_e, _rule_f, _rule_g, _rule_h, _rule_i, _rule_j, _rule_k, _rule_l, _rule_m, _rule_n,
+             _rule_o, _rule_p, _rule_q, _rule_r, _rule_s, _rule_t, _rule_u, _rule_v, _rule_w, _rule_x)
+
+
+def run(repo: Repo, rep: Report) -> None:
+    rep.extra["explanation"] = EXPLANATION + _EXPLANATION_2 + _EXPLANATION_3
+    cx = _Cx(repo, rep)
+    for sec in _SECTIONS:
+        _layer(rep, lambda _repo, _rep, _sec=sec: _sec(cx), repo)
